@@ -264,6 +264,14 @@ func checkC08(c *Ctx, r *Report) {
 		}
 	}
 
+	// re-serialising a decoded value reproduces the bytes only if the serialiser writes every
+	// byte itself, reserved ones included (a recycled buffer is not zeroed): the wire layout of
+	// the two-way request layers (rule shared with C06)
+	r.Rule("serialiser-writes-every-byte", "the serialisers of the two-way layers write every byte of their fixed part, reserved bytes as zero", 20)
+	compareSpec(c, r, specsFor(requestSpecs, "RAKPMessage1"), "wire", nil)
+	compareSpec(c, r, sessionHeaderSpecs, "wire", nil)
+	// … and no serialiser reserves bytes it does not write (rule shared with C17)
+	checkSerialisersOverwrite(c, r)
 	checkBufferViews(c, r, "buffer-views")
 	checkDecoderAcceptsSerialised(c, r)
 	checkDecodedPadConsistent(c, r)
